@@ -490,9 +490,13 @@ def _walk(box, out, keys, depth):
     if st is not None:
         for k in keys:
             try:
-                styles.append(canon(st[k]))
+                text = canon(st[k])
             except KeyError:
-                styles.append('?')
+                text = '?'
+            if k == 'background_position':
+                # the shorthand resets to 0px what the initial value writes 0%: the same offset
+                text = re.sub(r"Dimension\[0\.0,'(%|px)'\]", 'ZERO', text)
+            styles.append(text)
     is_target = box.element is not None and box.element.get('id') == 't'
     out.append((head, geom, styles, is_target))
     for c in getattr(box, 'children', ()) or ():
@@ -532,7 +536,7 @@ def fingerprint_pair(case):
     """case: dict(a=html, b=html) -> dict(same=bool, diff=first difference)"""
     # lengths spelled in different units differ in the last bit of the float product; Pango then rounds font
     # sizes and spacings to 1/1024 pt: a hundredth of a pixel per box is noise, not a different length
-    tol = 0.05 if case.get('kind') == 'units' else 0.0
+    tol = case.get('tol', 0.0)
     fa, keys, pages = fingerprint({'html': case['a']})
     fb, _, _ = fingerprint({'html': case['b']})
     res = dict(same=True, boxes=len(fa), pages=pages, diff=None)
